@@ -12,8 +12,9 @@
       `ExternalReferenceForbidden` when its DOCTYPE only names an external subset — for EVERY entry point
       (`refuses_partial`, `refuses_explicit_partial`, `refuses_external_subset_partial`, `C13_full_partial`).
 
-  What is NOT proved (level: partial): the behaviour of defusedxml / expat itself — it is a hypothesis,
-  validated on every run by the fault matrix of harness/c13.py — and "never reads a local file or URL", which
+  What is NOT proved (level: partial): the behaviour of defusedxml / expat itself (`ParserBehaviour`) and that the text
+  pre-processing in front of the parser (`__fixXmlPart`) leaves the DOCTYPE alone (`Prep`) — both are hypotheses,
+  validated on every run by the fault matrix / the pre-processing correspondence of harness/c13.py — and "never reads a local file or URL", which
   is outside the model (a refused parse resolves nothing; the harness watches file and URL opens).
 
   Full statement of the property in model terms: `C13_full`, proved for every assumed parser behaviour
@@ -204,42 +205,57 @@ theorem moin_guarded (ep : EP) (hs : ep.shape = .moin) (pt : Part) (hpt : pt = .
   cases ep <;> first | exact absurd hs (by decide) | skip
   all_goals (rcases hpt with h | h <;> subst h <;> decide)
 
-theorem readMember_declares (B : ParserBehaviour) (ep : EP) (m : Member) (x : XmlMember) (api : Api)
-    (hk : kind ep m = some (.defused api)) (hd : x.declaresEntity = true) :
-    readMember B ep m x = .error .entitiesForbidden := by
-  simp only [readMember, hk, B.defused_refuses_entities api x hd]
+/-- the pre-processing obligation at work: what the parser is given carries the member's DOCTYPE facts -/
+theorem prep_arg (P : Prep) (ep : EP) (m : Member) (x : XmlMember) :
+    (if prepped ep m = true then P.fix x else x) = x := by
+  split
+  · exact P.preserves x
+  · rfl
 
-theorem readMember_clean (B : ParserBehaviour) (ep : EP) (m : Member) (k : Kind) (hk : kind ep m = some k) :
-    readMember B ep m XmlMember.clean = .ok ⟨false⟩ := by
+/-- **C13 (inventory, pre-processing)**: the only parse site with a text transformer in front of it is the one of
+    `__loadxmlparts` (so the obligation `Prep` concerns `__fixXmlPart` and nothing else): the manifest reader and
+    the MoinMoin converter hand the member's bytes to the parser as they are -/
+theorem prep_only_load_parts (ep : EP) (pt : Part) (objEmpty : Bool) (h : preppedB ep pt objEmpty = true) :
+    ep.shape = .loadLike ∧ pt ≠ .manifest := by
+  revert h
+  cases ep <;> cases pt <;> cases objEmpty <;> decide
+
+theorem readMember_declares (B : ParserBehaviour) (P : Prep) (ep : EP) (m : Member) (x : XmlMember) (api : Api)
+    (hk : kind ep m = some (.defused api)) (hd : x.declaresEntity = true) :
+    readMember B P ep m x = .error .entitiesForbidden := by
+  simp only [readMember, hk, prep_arg, B.defused_refuses_entities api x hd]
+
+theorem readMember_clean (B : ParserBehaviour) (P : Prep) (ep : EP) (m : Member) (k : Kind) (hk : kind ep m = some k) :
+    readMember B P ep m XmlMember.clean = .ok ⟨false⟩ := by
   have h := B.clean_ok k
-  simp only [readMember, hk, h]
+  simp only [readMember, hk, prep_arg, h]
   simp [XmlMember.clean]
 
 /-- a member whose DOCTYPE only names an external subset: refused by the SAX reader (assumed), or by the code's
     own doctype test after a DOM parse (modelled; the DOM parse itself may succeed or refuse, nothing else) -/
-theorem readMember_external (B : ParserBehaviour) (ep : EP) (m : Member) (x : XmlMember)
+theorem readMember_external (B : ParserBehaviour) (P : Prep) (ep : EP) (m : Member) (x : XmlMember)
     (hk : kind ep m = some (.defused .sax) ∨ ((∃ api, kind ep m = some (.defused api)) ∧ guarded ep m = true))
     (hd : x.declaresEntity = false) (he : x.externalSubset = true) :
-    readMember B ep m x = .error .externalReferenceForbidden := by
+    readMember B P ep m x = .error .externalReferenceForbidden := by
   rcases hk with hk | ⟨⟨api, hk⟩, hg⟩
-  · simp only [readMember, hk, B.sax_refuses_external_subset x hd he]
+  · simp only [readMember, hk, prep_arg, B.sax_refuses_external_subset x hd he]
   · rcases B.defused_no_other_failure api x hd with ⟨o, ho⟩ | herr
-    · simp [readMember, hk, ho, hg, he]
-    · simp only [readMember, hk, herr]
+    · simp [readMember, hk, prep_arg, ho, hg, he]
+    · simp only [readMember, hk, prep_arg, herr]
 
-theorem readList_refuses (B : ParserBehaviour) (ep : EP) (p : Pkg) (ms : List Member)
+theorem readList_refuses (B : ParserBehaviour) (P : Prep) (ep : EP) (p : Pkg) (ms : List Member)
     (hk : ∀ m' ∈ ms, ∃ api, kind ep m' = some (.defused api))
     (m : Member) (x : XmlMember) (hm : m ∈ ms) (hx : p.lookup m.path = some x) (hd : x.declaresEntity = true) :
-    ∃ e, readList B ep p ms = .error e := by
+    ∃ e, readList B P ep p ms = .error e := by
   induction ms with
   | nil => cases hm
   | cons m0 rest ih =>
-    have ihr : m ∈ rest → ∃ e, readList B ep p rest = .error e :=
+    have ihr : m ∈ rest → ∃ e, readList B P ep p rest = .error e :=
       fun hmr => ih (fun m' h' => hk m' (List.mem_cons_of_mem _ h')) hmr
     by_cases hm0 : m = m0
     · subst hm0
       obtain ⟨api, hkm⟩ := hk m (by simp)
-      simp only [readList, hx, readMember_declares B ep m x api hkm hd]
+      simp only [readList, hx, readMember_declares B P ep m x api hkm hd]
       exact ⟨_, rfl⟩
     · have hmr : m ∈ rest := by
         rcases List.mem_cons.mp hm with h | h
@@ -255,41 +271,41 @@ theorem readList_refuses (B : ParserBehaviour) (ep : EP) (p : Pkg) (ms : List Me
         · exact ⟨_, rfl⟩
       | some x0 =>
         simp only []
-        cases hp : readMember B ep m0 x0 with
+        cases hp : readMember B P ep m0 x0 with
         | error e0 => exact ⟨e0, rfl⟩
         | ok o => simp only [he]; exact ⟨e, rfl⟩
 
 /-- **C13 (refusal; partial: parser behaviour assumed)**: if an entry point reads a member that declares an
     entity (internal, external general or parameter — used or not), the call does not return: it fails. -/
-theorem refuses_partial (B : ParserBehaviour) (ep : EP) (p : Pkg) (m : Member) (x : XmlMember)
+theorem refuses_partial (B : ParserBehaviour) (P : Prep) (ep : EP) (p : Pkg) (m : Member) (x : XmlMember)
     (hm : m ∈ readOrder ep p) (hx : p.lookup m.path = some x) (hd : x.declaresEntity = true) :
-    ∃ e, read B ep p = .error e :=
-  readList_refuses B ep p (readOrder ep p) (fun m' h' => readOrder_defused ep p m' h') m x hm hx hd
+    ∃ e, read B P ep p = .error e :=
+  readList_refuses B P ep p (readOrder ep p) (fun m' h' => readOrder_defused ep p m' h') m x hm hx hd
 
 /-- contrapositive: a call that returns has met no entity declaration in any member it opened -/
-theorem returns_implies_clean_partial (B : ParserBehaviour) (ep : EP) (p : Pkg) (os : List Outcome)
-    (h : read B ep p = .ok os) (m : Member) (x : XmlMember) (hm : m ∈ readOrder ep p)
+theorem returns_implies_clean_partial (B : ParserBehaviour) (P : Prep) (ep : EP) (p : Pkg) (os : List Outcome)
+    (h : read B P ep p = .ok os) (m : Member) (x : XmlMember) (hm : m ∈ readOrder ep p)
     (hx : p.lookup m.path = some x) : x.declaresEntity = false := by
   cases hd : x.declaresEntity with
   | false => rfl
   | true =>
-    obtain ⟨e, he⟩ := refuses_partial B ep p m x hm hx hd
+    obtain ⟨e, he⟩ := refuses_partial B P ep p m x hm hx hd
     rw [he] at h; cases h
 
 /-- single-fault form used by the fault matrix: the walk up to the faulty member succeeds, so the error that
     surfaces is the explicit refusal of that member -/
-theorem readList_single_fault (B : ParserBehaviour) (ep : EP) (p : Pkg) (ms : List Member)
+theorem readList_single_fault (B : ParserBehaviour) (P : Prep) (ep : EP) (p : Pkg) (ms : List Member)
     (m : Member) (x : XmlMember) (err : Err)
-    (hbad : ∀ m' ∈ ms, m'.path = m.path → readMember B ep m' x = .error err)
+    (hbad : ∀ m' ∈ ms, m'.path = m.path → readMember B P ep m' x = .error err)
     (hothers : ∀ m' ∈ ms, m'.path ≠ m.path →
         (p.lookup m'.path = none ∧ skipsMissing ep m' = true) ∨
         (p.lookup m'.path = some XmlMember.clean ∧ ∃ k, kind ep m' = some k))
     (hm : m ∈ ms) (hx : p.lookup m.path = some x) :
-    readList B ep p ms = .error err := by
+    readList B P ep p ms = .error err := by
   induction ms with
   | nil => cases hm
   | cons m0 rest ih =>
-    have ihr : m ∈ rest → readList B ep p rest = .error err :=
+    have ihr : m ∈ rest → readList B P ep p rest = .error err :=
       fun hmr => ih (fun m' h' => hbad m' (List.mem_cons_of_mem _ h'))
                     (fun m' h' => hothers m' (List.mem_cons_of_mem _ h')) hmr
     by_cases hp0 : m0.path = m.path
@@ -301,7 +317,7 @@ theorem readList_single_fault (B : ParserBehaviour) (ep : EP) (p : Pkg) (ms : Li
         · exact h
       rcases hothers m0 (by simp) hp0 with ⟨hl, hs⟩ | ⟨hl, k, hk⟩
       · simp only [readList, hl, hs, if_true]; exact ihr hmr
-      · simp only [readList, hl, readMember_clean B ep m0 k hk, ihr hmr]
+      · simp only [readList, hl, readMember_clean B P ep m0 k hk, ihr hmr]
 
 /-- the side condition of the single-fault theorems: every OTHER member on the walk is clean, or absent where
     the code tolerates absence -/
@@ -322,15 +338,15 @@ theorem others_kind (ep : EP) (p : Pkg) (m : Member) (h : OthersClean ep p m) :
 /-- **C13 (explicit refusal; partial: parser behaviour assumed)**: the package's only faulty member declares
     an entity and is read by the entry point ⟹ the call fails with `EntitiesForbidden`, for every entry point,
     every object path, whatever the parser does otherwise. -/
-theorem refuses_explicit_partial (B : ParserBehaviour) (ep : EP) (p : Pkg) (m : Member) (x : XmlMember)
+theorem refuses_explicit_partial (B : ParserBehaviour) (P : Prep) (ep : EP) (p : Pkg) (m : Member) (x : XmlMember)
     (hm : m ∈ readOrder ep p) (hx : p.lookup m.path = some x) (hd : x.declaresEntity = true)
     (hothers : OthersClean ep p m) :
-    read B ep p = .error .entitiesForbidden := by
+    read B P ep p = .error .entitiesForbidden := by
   unfold Entity.read
-  apply readList_single_fault B ep p (readOrder ep p) m x .entitiesForbidden
+  apply readList_single_fault B P ep p (readOrder ep p) m x .entitiesForbidden
   · intro m' hm' _
     obtain ⟨api, hk⟩ := readOrder_defused ep p m' hm'
-    exact readMember_declares B ep m' x api hk hd
+    exact readMember_declares B P ep m' x api hk hd
   · exact others_kind ep p m hothers
   · exact hm
   · exact hx
@@ -371,16 +387,16 @@ theorem readOrder_sax_or_guarded (ep : EP) (p : Pkg) (m : Member) (h : m ∈ rea
 /-- **C13 (external DTD subset; partial: parser behaviour assumed)**: for EVERY entry point — the MoinMoin
     converter included, through the doctype test of `_parse` — a member whose DOCTYPE names an external subset is
     refused with `ExternalReferenceForbidden`. -/
-theorem refuses_external_subset_partial (B : ParserBehaviour) (ep : EP) (p : Pkg)
+theorem refuses_external_subset_partial (B : ParserBehaviour) (P : Prep) (ep : EP) (p : Pkg)
     (m : Member) (x : XmlMember)
     (hm : m ∈ readOrder ep p) (hx : p.lookup m.path = some x)
     (hd : x.declaresEntity = false) (he : x.externalSubset = true)
     (hothers : OthersClean ep p m) :
-    read B ep p = .error .externalReferenceForbidden := by
+    read B P ep p = .error .externalReferenceForbidden := by
   unfold Entity.read
-  apply readList_single_fault B ep p (readOrder ep p) m x .externalReferenceForbidden
+  apply readList_single_fault B P ep p (readOrder ep p) m x .externalReferenceForbidden
   · intro m' hm' _
-    exact readMember_external B ep m' x (readOrder_sax_or_guarded ep p m' hm') hd he
+    exact readMember_external B P ep m' x (readOrder_sax_or_guarded ep p m' hm') hd he
   · exact others_kind ep p m hothers
   · exact hm
   · exact hx
@@ -390,20 +406,20 @@ theorem refuses_external_subset_partial (B : ParserBehaviour) (ep : EP) (p : Pkg
 /-- the property at full strength in model terms, for a given parser behaviour: ANY doctype-borne fault
     (entity declaration or external subset) in a member the entry point reads makes the call fail with one of
     the two explicit refusals -/
-def C13_full (B : ParserBehaviour) : Prop :=
+def C13_full (B : ParserBehaviour) (P : Prep) : Prop :=
   ∀ (ep : EP) (p : Pkg) (m : Member) (x : XmlMember), m ∈ readOrder ep p → p.lookup m.path = some x →
     (x.declaresEntity = true ∨ x.externalSubset = true) → OthersClean ep p m →
-    read B ep p = .error .entitiesForbidden ∨ read B ep p = .error .externalReferenceForbidden
+    read B P ep p = .error .entitiesForbidden ∨ read B P ep p = .error .externalReferenceForbidden
 
 /-- **C13 (full statement; partial only in that the behaviour of defusedxml / expat is the hypothesis `B`)** -/
-theorem C13_full_partial (B : ParserBehaviour) : C13_full B := by
+theorem C13_full_partial (B : ParserBehaviour) (P : Prep) : C13_full B P := by
   intro ep p m x hm hx hf ho
   cases hd : x.declaresEntity with
-  | true => exact Or.inl (refuses_explicit_partial B ep p m x hm hx hd ho)
+  | true => exact Or.inl (refuses_explicit_partial B P ep p m x hm hx hd ho)
   | false =>
     rcases hf with hf | hf
     · rw [hd] at hf; cases hf
-    · exact Or.inr (refuses_external_subset_partial B ep p m x hm hx hd hf ho)
+    · exact Or.inr (refuses_external_subset_partial B P ep p m x hm hx hd hf ho)
 
 /-- a package whose content.xml names an external DTD subset and declares nothing itself -/
 def extSubsetPkg : Pkg :=
@@ -411,7 +427,7 @@ def extSubsetPkg : Pkg :=
 
 /-- the former finding KF-C13-1/2 (repaired in d51c2e9), on the model with the observed parser behaviour: the DOM
     parse of content.xml succeeds and the doctype test of `_parse` refuses it -/
-theorem moin_external_subset_refused : read observed .moinInit extSubsetPkg = .error .externalReferenceForbidden := by
+theorem moin_external_subset_refused : read observed Prep.id .moinInit extSubsetPkg = .error .externalReferenceForbidden := by
   rfl
 
 /-! ### the hypotheses are satisfiable / the model is not vacuous -/
@@ -421,25 +437,25 @@ example : ¬ parses .moinInit ⟨[79, 98, 106, 101, 99, 116, 32, 49, 47], .conte
 example : ¬ parses .manifestlist ⟨[], .content⟩ := by decide
 
 /-- `Object 1/content.xml` declares an entity: load refuses, for the observed behaviour and any other -/
-example (B : ParserBehaviour) :
-    read B .load { files := [(Part.manifest.file, XmlMember.clean),
+example (B : ParserBehaviour) (P : Prep) :
+    read B P EP.load ({ files := [(Part.manifest.file, XmlMember.clean),
                              ([79, 98, 106, 101, 99, 116, 32, 49, 47] ++ Part.content.file, ⟨true, false⟩)],
-                   manifest := [[79, 98, 106, 101, 99, 116, 32, 49, 47],
-                                [79, 98, 106, 101, 99, 116, 32, 49, 47] ++ Part.content.file] }
+                        manifest := [[79, 98, 106, 101, 99, 116, 32, 49, 47],
+                                     [79, 98, 106, 101, 99, 116, 32, 49, 47] ++ Part.content.file] } : Pkg)
       = .error .entitiesForbidden := by
-  apply refuses_explicit_partial B .load _ ⟨[79, 98, 106, 101, 99, 116, 32, 49, 47], .content⟩ ⟨true, false⟩
+  apply refuses_explicit_partial B P .load _ ⟨[79, 98, 106, 101, 99, 116, 32, 49, 47], .content⟩ ⟨true, false⟩
   · decide
   · decide
   · rfl
   · unfold OthersClean; decide
 
 /-- `Object 1/Object 2/styles.xml` (nested) names an external subset: every load-like entry point refuses -/
-example (B : ParserBehaviour) :
-    read B .xhtmlOdf2xhtml
-      { files := [(Part.manifest.file, XmlMember.clean), (objName [49] ++ objName [50] ++ Part.styles.file, ⟨false, true⟩)],
-        manifest := [objName [49], objName [49] ++ objName [50], objName [49] ++ objName [50] ++ Part.styles.file] }
+example (B : ParserBehaviour) (P : Prep) :
+    read B P EP.xhtmlOdf2xhtml
+      ({ files := [(Part.manifest.file, XmlMember.clean), (objName [49] ++ objName [50] ++ Part.styles.file, ⟨false, true⟩)],
+         manifest := [objName [49], objName [49] ++ objName [50], objName [49] ++ objName [50] ++ Part.styles.file] } : Pkg)
       = .error .externalReferenceForbidden := by
-  apply refuses_external_subset_partial B .xhtmlOdf2xhtml _ ⟨objName [49] ++ objName [50], .styles⟩ ⟨false, true⟩
+  apply refuses_external_subset_partial B P .xhtmlOdf2xhtml _ ⟨objName [49] ++ objName [50], .styles⟩ ⟨false, true⟩
   · decide
   · decide
   · rfl
